@@ -35,6 +35,34 @@ Definition contains_byte (c : N) (s : bytes) : bool := existsb (N.eqb c) s.
 Definition contains_plus (s : bytes) : bool := contains_byte 43 s.
 Definition contains_semicolon (s : bytes) : bool := contains_byte 59 s.
 
+(* strings.Index(h, ";"): h[:i] and h[i:] for the first ';' (whole string / empty when there is none) *)
+Fixpoint before_semi (s : bytes) : bytes :=
+  match s with
+  | [] => []
+  | c :: r => if N.eqb 59 c then [] else c :: before_semi r
+  end.
+Fixpoint from_semi (s : bytes) : bytes :=
+  match s with
+  | [] => []
+  | c :: r => if N.eqb 59 c then s else from_semi r
+  end.
+
+(* strings.TrimRight(s, " \t") *)
+Definition is_sp_tab (c : N) : bool := N.eqb c 32 || N.eqb c 9.
+Fixpoint trim_right (s : bytes) : bytes :=
+  match s with
+  | [] => []
+  | c :: r => match trim_right r with
+              | [] => if is_sp_tab c then [] else [c]
+              | r' => c :: r'
+              end
+  end.
+
+(* the suffixed header SetContentType builds from a pre-set value without '+': the suffix
+   goes behind the media type, in front of the parameters *)
+Definition insert_suffix (sfx h : bytes) : bytes :=
+  if contains_semicolon h then trim_right (before_semi h) ++ sfx ++ from_semi h else h ++ sfx.
+
 (* ---- literals ---- *)
 Definition app_json   : bytes := Eval vm_compute in bs "application/json".
 Definition app_xml    : bytes := Eval vm_compute in bs "application/xml".
@@ -89,7 +117,7 @@ Definition set_content_type (h ct : bytes) : bytes :=
   if beq h [] then ct
   else if negb (beq ct app_json) && negb (beq ct app_xml) then ct
   else if contains_plus h then h
-  else h ++ (if beq ct app_xml then sfx_xml else sfx_json).
+  else insert_suffix (if beq ct app_xml then sfx_xml else sfx_json) h.
 
 (* request side results *)
 Inductive rdec := RDec (k : kind) | RUnsupported (ct : bytes).
@@ -214,19 +242,29 @@ Definition parser_stable (pmt : bytes -> option bytes) : Prop :=
 (* the five supported literals are not rewritten by the parser *)
 Definition parser_fixes_supported (pmt : bytes -> option bytes) : Prop :=
   forall c, In c supported -> norm pmt c = c.
-(* a value without ';' (no parameters) keeps a +json / +xml suffix through the parser *)
+(* the media type is decided by what stands in front of the first ';' and keeps a
+   +json / +xml suffix standing there *)
 Definition parser_keeps_suffix (pmt : bytes -> option bytes) : Prop :=
-  forall s m, contains_semicolon s = false -> pmt s = Some m ->
-    (has_suffix sfx_json s = true -> has_suffix sfx_json m = true) /\
-    (has_suffix sfx_xml s = true -> has_suffix sfx_xml m = true).
+  forall b p m, contains_semicolon b = false -> (p = [] \/ exists r, p = 59 :: r) ->
+    (pmt (b ++ sfx_json ++ p) = Some m -> has_suffix sfx_json m = true) /\
+    (pmt (b ++ sfx_xml ++ p) = Some m -> has_suffix sfx_xml m = true).
+(* a header field value made of visible ASCII, SP and TAB; for other bytes (CR, LF, U+00A0 ...)
+   Go's parser trims more "white space" in front of the ';' than SetContentType does *)
+Definition field_safe (h : bytes) : bool :=
+  forallb (fun c => (N.leb 32 c && N.ltb c 127) || N.eqb c 9) h.
+(* such a value with parameters that parses still parses once the suffix is inserted *)
+Definition parser_accepts_suffixed (pmt : bytes -> option bytes) : Prop :=
+  forall h m, field_safe h = true -> contains_plus h = false -> contains_semicolon h = true -> pmt h = Some m ->
+    pmt (insert_suffix sfx_json h) <> None /\ pmt (insert_suffix sfx_xml h) <> None.
 
 (* the `_partial` hypothesis on a pre-set response header: nothing to say when the encoder
-   is gob/text (SetContentType overwrites); otherwise absent, or plain (no '+', no
-   parameters), or already carrying a suffix that the library decoder reads as the chosen kind *)
+   is gob/text (SetContentType overwrites); otherwise absent, or without '+' (and, when it
+   has parameters, a field-safe value the parser accepts), or already carrying a suffix that the
+   library decoder reads as the chosen kind *)
 Definition preset_ok (pmt : bytes -> option bytes) (k : kind) (preset : bytes) : Prop :=
   match k with
   | KGob | KText => True
   | _ => preset = []
-         \/ (contains_plus preset = false /\ contains_semicolon preset = false)
+         \/ (contains_plus preset = false /\ (contains_semicolon preset = false \/ (field_safe preset = true /\ pmt preset <> None)))
          \/ (contains_plus preset = true /\ response_decoder pmt preset = k)
   end.
